@@ -262,12 +262,27 @@ def _pre(rng, items):
     return rng.randint(0, n) if rng.random() < 0.35 else 0
 
 
+def _fill_items(rng, levels, counter, kind):
+    """Items of a fill sequence: context elements and callables, the accumulator, then
+    anything (also nested sequences and Splits, which start a partial fold of their own)."""
+    pre = []
+    for _ in range(rng.randint(0, 2)):
+        leaf = _rand_leaf(rng, counter)
+        while leaf[0] not in ("set", "store", "mkfn", "data"):
+            leaf = _rand_leaf(rng, counter)
+        pre.append(leaf)
+    return pre + [["acc", kind]] + _rand_items(rng, levels - 1, counter, 1, 4)
+
+
 def _rand_item(rng, levels, counter):
     x = rng.random()
-    if levels <= 0 or x < 0.68:
+    if levels <= 0 or x < 0.66:
         return _rand_leaf(rng, counter)
-    if x < 0.80:
+    if x < 0.78:
         return ["seq", _rand_items(rng, levels - 1, counter, 0 if rng.random() < 0.1 else 1, 3)]
+    if x < 0.83:
+        kind = rng.choice(["fc", "fr"])
+        return ["fcseq" if kind == "fc" else "frseq", _fill_items(rng, levels, counter, kind)]
     return _rand_split(rng, levels, counter)
 
 
@@ -276,7 +291,10 @@ def _rand_split(rng, levels, counter):
     for _ in range(rng.randint(1, 3)):
         y = rng.random()
         lo = 0 if rng.random() < 0.08 else 1
-        if y < 0.6:
+        if y < 0.12:
+            # a tuple that holds an accumulator: Split turns it into a fill sequence
+            brs.append(["tuple", _fill_items(rng, levels, counter, rng.choice(["fc", "fr"]))])
+        elif y < 0.6:
             brs.append(["tuple", _rand_items(rng, levels - 1, counter, lo, 3)])
         elif y < 0.8:
             brs.append(["seq", _rand_items(rng, levels - 1, counter, lo, 3)])
@@ -285,6 +303,11 @@ def _rand_split(rng, levels, counter):
             brs.append(["source", its, _pre(rng, its)])
         else:
             brs.append(["bare", [_rand_leaf(rng, counter)]])
+    for br in brs:
+        if br[0] == "tuple":
+            # a fill sequence given directly in a tuple would make Split take the whole tuple
+            # for a fill sequence: it stands in a Sequence of its own there
+            br[1] = [["seq", [x]] if x[0] in ("fcseq", "frseq") else x for x in br[1]]
     if rng.random() < 0.3:
         # copy_buf concerns the buffer of run-time values; the static context is handed to
         # each branch as an independent copy whatever its value
@@ -296,6 +319,10 @@ def rand_tree(rng, maxlevels):
     counter = [0]
     x = rng.random()
     levels = rng.randint(1, maxlevels) - 1
+    if x < 0.06:
+        kind = rng.choice(["fc", "fr"])
+        return ["fcseq" if kind == "fc" else "frseq",
+                _fill_items(rng, max(levels, 1), counter, kind)]
     if x < 0.45:
         return ["seq", _rand_items(rng, levels, counter, 1, 5)]
     if x < 0.82:
@@ -390,7 +417,9 @@ def cases(tier, seed):
                     break
                 tree = rand_tree(rng, maxlevels)
         nflow = rng.randint(1, 3)
-        flow = [[j, ({"r": j} if rng.random() < 0.4 else {})] for j in range(nflow)]
+        # run-time values that are equal but differently written (1, 1.0, True)
+        flow = [[j, ({"r": rng.choice([j, j, float(j), bool(j)]) if j < 2 else j}
+                     if rng.random() < 0.4 else {})] for j in range(nflow)]
         yield {"k": "tree", "tree": tree, "flow": flow, "vseed": rng.randint(0, 10 ** 9),
                "nv": NVARIANTS[tier]}
 
@@ -429,10 +458,19 @@ def _build_item(it, root_dir, flow_r, b):
         el = lena.flow.Cache(os.path.join(root_dir, it[2]))
     elif k == "data":
         return gen.func(it[1])
-    elif k in ("seq", "tuple", "bare", "source"):
+    elif k == "acc":
+        if it[1] == "fc":
+            return lena.flow.StoreFilled()
+        return lena.core.FillRequest(lena.flow.StoreFilled(), bufsize=2, reset=True,
+                                     buffer_input=True)
+    elif k in ("seq", "tuple", "bare", "source", "fcseq", "frseq"):
         items = [_build_item(ch, root_dir, flow_r, b) for ch in it[1]]
         if k == "seq":
             return lena.core.Sequence(*items)
+        if k == "fcseq":
+            return lena.core.FillComputeSeq(*items)
+        if k == "frseq":
+            return lena.core.FillRequestSeq(*items, bufsize=1, reset=False, buffer_input=True)
         if k == "tuple":
             return tuple(items)
         if k == "bare":
@@ -877,6 +915,10 @@ def _case(r, obs, tmp):
         # without copy_buf the branches share the run-time values by design: the run of the
         # tree is outside the model (which gives every branch its own copy)
         obs.count("runs_skipped_copy_buf_false")
+        return
+    if any(it[0] == "acc" for _, it in M.leaves(tree)):
+        # accumulators change what is yielded; the run-time model covers streaming trees only
+        obs.count("runs_skipped_accumulator")
         return
     from rv.monitors import audit
     rdir = os.path.join(tmp, "run")
